@@ -226,7 +226,13 @@ class _RealFinder:
     def _follows_dot(self, offset):
         """An attribute name may be spelled like a keyword prefix: `s.is`"""
         prev = self._find_last_non_space_char(offset - 1)
-        return prev >= 0 and self.code[prev] == "."
+        if prev < 0 or self.code[prev] != ".":
+            return False
+        # the dot of a float literal (``3. else x``) is no attribute access
+        before = self._find_last_non_space_char(prev - 1)
+        if before < 0 or not self._is_id_char(before):
+            return True
+        return not self.code[self._find_word_start(before)].isdigit()
 
     def _find_primary_start(self, offset):
         if offset >= len(self.code):
